@@ -32,6 +32,8 @@ finally:
     else:
         import hashlib
         sh("rm -rf %s /verif/.build/alt_%s" % (cp, hashlib.sha256(cp.encode()).hexdigest()[:8]))
+# the run regenerated Gen/*.lean from the changed tree: restore the committed (clean-tree) files
+sh("git -C /verif checkout -- lean/CMacVerif/Gen")
 viol = [l for l in out.split("\n") if l.startswith("VIOLATION")]
 desc = [l.strip() for l in out.split("\n") if l.strip().startswith("violation:")]
 res = {"check": pid, "tier": tier, "exit": rc, "caught": rc == 1 and bool(viol), "wall_s": round(time.time() - t0, 1),
